@@ -340,6 +340,12 @@ failure:
 		of_mod2dense_free(dense_pchk_matrix_simplified);
 		dense_pchk_matrix_simplified = NULL;
 	}
+	if (of_is_decoding_complete ((of_session_t*)ofcb))
+	{
+		/* the simplification step alone recovered the last source symbols: nothing was left to solve */
+		OF_EXIT_FUNCTION
+		return OF_STATUS_OK;
+	}
 	OF_EXIT_FUNCTION
 	return OF_STATUS_FAILURE;
 
